@@ -79,7 +79,7 @@ def run_pick(row):
                 f.write('[oslo_policy]\npolicy_file = %s\n' % row['val'])
         opts._register(conf)
         if row['loc'] == 'set_default':
-            saved = [o.default for o in opts._options if o.name == 'policy_file'][0]
+            saved = [(o, o.default, o._set_location) for o in opts._options if o.name == 'policy_file'][0]
             opts.set_defaults(conf, policy_file=row['val'])
         conf(args, project='verif', default_config_files=[])
         if row['loc'] == 'set_override':
@@ -99,8 +99,8 @@ def run_pick(row):
         c['_exc'] = '%s: %s' % (type(ex).__name__, ex)
     finally:
         if saved is not None:
-            from oslo_config import cfg as _cfg
-            _cfg.set_defaults(opts._options, policy_file=saved)
+            # (the option object is process-global: its value and the place oslo.config says it was set are put back)
+            saved[0].default, saved[0]._set_location = saved[1], saved[2]
         shutil.rmtree(d, ignore_errors=True)
     return c
 
@@ -179,7 +179,13 @@ def run(ctx):
               # directory's newer): the layering is over the files as they are now
               [('write', 'd1/a', 'new'), ('load', False), ('replace', 'd1/a', 'new', False), ('load', False)],
               [('write', 'main', 'new'), ('write', 'd1/b', 'both'), ('write', 'd1/a', 'new'), ('load', False), ('replace', 'd1/a', 'new', True), ('load', False), ('load', False)],
-              [('write', 'd2/a', 'old'), ('load', False), ('replace', 'd2/a', 'new', True), ('load', False)]]
+              [('write', 'd2/a', 'old'), ('load', False), ('replace', 'd2/a', 'new', True), ('load', False)],
+              # layers that define no name at all, in every spelling of "nothing" (no bytes, {}, comments only,
+              # a bare document marker, blank lines): skipped like a missing file, the other layers apply
+              [('write', 'main', 'new'), ('empty', 'main'), ('write', 'd1/a', 'old'), ('load', False)],
+              [('write', 'd1/a', 'new'), ('write', 'd1/b', 'old'), ('empty', 'd1/b'), ('write', 'main', 'both'), ('load', False)],
+              [('write', 'd2/a', 'new'), ('write', 'main', 'old'), ('empty', 'd2/a'), ('empty', 'main'), ('load', False)],
+              [('write', 'd1/a', 'both'), ('empty', 'd1/a'), ('write', 'd2/a', 'both'), ('load', False), ('empty', 'd2/a'), ('load', False)]]
         traces = [lc.run_history(rng, variant, en, h) for h in hs]
         n += len(traces)
         for idx, why, step in lc.judge_traces(ctx, variant, en, traces):
